@@ -86,15 +86,37 @@ def scramble_ticks(msgs, perm):
     return [m for t in ticks for m in groups[t]]
 
 
+def metas_last(msgs, perm):
+    """Within some ticks (chosen by `perm`) hand the non-note messages over AFTER the note messages of that tick - "notes first,
+    then the signatures", as a caller filling a sequence voice by voice does. The order of the note messages among themselves
+    (note-off before note-on) is kept; the value of the sequence is the same."""
+    out, i = [], 0
+    while i < len(msgs):
+        j = i
+        while j < len(msgs) and msgs[j].time == msgs[i].time:
+            j += 1
+        group = msgs[i:j]
+        if ((perm * 2654435761 + (msgs[i].time or 0) * 40503) >> 7) & 1:
+            notes = [m for m in group if m.message_type in (MT.NOTE_ON, MT.NOTE_OFF)]
+            group = notes + [m for m in group if m.message_type not in (MT.NOTE_ON, MT.NOTE_OFF)]
+        out.extend(group)
+        i = j
+    return out
+
+
 def build_sequence(spec, mode) -> Sequence:
     """mode: 'abs' (only absolute fresh), 'rel' (only relative fresh), 'both', 'empty' (Sequence()),
-    'insert:<n>' (built message by message through add_absolute_message, ticks in a seeded scrambled order)."""
+    'insert:<n>' (built message by message through add_absolute_message, ticks in a seeded scrambled order),
+    'insert2:<n>' (the same, and in some ticks the non-note messages are added after the notes of that tick)."""
     if mode == "empty":
         return Sequence()
     if mode.startswith("insert"):
         s = Sequence()
         perm = int(mode.split(":")[1]) if ":" in mode else 1
-        for m in scramble_ticks(render_abs(spec), perm):
+        msgs = scramble_ticks(render_abs(spec), perm)
+        if mode.startswith("insert2"):
+            msgs = metas_last(msgs, perm)
+        for m in msgs:
             s.add_absolute_message(m)
         return s
     if mode == "abs":
